@@ -21,6 +21,11 @@ def load_prop(pid: str):
     return importlib.import_module(f'kverif.props.{pid.lower()}')
 
 
+def _exh(mod, tier):
+    ex = getattr(mod, 'EXHAUSTIVE', False)
+    return ex.get(tier, False) if isinstance(ex, dict) else ex
+
+
 def load_findings() -> list[dict]:
     path = os.environ.get('KVERIF_FINDINGS', os.path.join(VERIF_ROOT, 'known_findings.json'))  # override only for self-tests of the KNOWN-FINDING path
     if not os.path.exists(path):
@@ -158,7 +163,8 @@ def fold(pid, mod, tier, seed, outs, wall) -> int:
         'known_finding_hits': known_hits,
         'inconclusive_reasons': inconclusive[:20],
         'shards': len(outs),
-        'exhaustive': bool(getattr(mod, 'EXHAUSTIVE', False)),
+        'exhaustive': bool(_exh(mod, tier)),
+        'exhaustive_scope': getattr(mod, 'EXHAUSTIVE_SCOPE', ''),
     }
     if info:
         coverage['info'] = info[:20]
